@@ -636,7 +636,7 @@ class Parser:
         elif len(tokens) == 1:
             return tokens[0]
         else:
-            raise DisambiguationError(Location(head), tokens)
+            raise DisambiguationError(Location(ErrorContext(head)), tokens)
 
     def _next_tokens(self, head):
         """
